@@ -9,6 +9,7 @@ import (
 type commitable[T any] struct {
 	comittedValue T
 	stagedValue   typeutils.Optional[T]
+	previousValue typeutils.Optional[T] // The value replaced by the last Commit, kept so the commit can be rolled back.
 }
 
 func NewCommitable[T any](value T) commitable[T] {
@@ -29,9 +30,23 @@ func (c *commitable[T]) Stage(value T) {
 
 func (c *commitable[T]) Commit() {
 	if val, ok := c.stagedValue.Get(); ok {
+		c.previousValue = typeutils.Some(c.comittedValue)
 		c.comittedValue = val
 		c.stagedValue = typeutils.None[T]()
 	}
+}
+
+// Undoes the last Commit, restoring the value that was committed before it.
+func (c *commitable[T]) Rollback() {
+	if val, ok := c.previousValue.Get(); ok {
+		c.comittedValue = val
+		c.previousValue = typeutils.None[T]()
+	}
+}
+
+// Returns the value that was replaced by the last Commit, if it can still be rolled back.
+func (c *commitable[T]) Previous() (T, bool) {
+	return c.previousValue.Get()
 }
 
 func (c *commitable[T]) Uncommit() {
